@@ -23,7 +23,6 @@
 package queue
 
 import (
-	"sync"
 	"sync/atomic"
 	"unsafe"
 )
@@ -33,7 +32,6 @@ type Queue struct {
 	head unsafe.Pointer // pointer to the head of the queue
 	tail unsafe.Pointer // pointer to the tail of the queue
 	len  int64          // length of the queue
-	pool sync.Pool
 }
 
 // item is a single node in the queue.
@@ -50,17 +48,12 @@ func NewQueue() *Queue {
 		head: unsafe.Pointer(dummy), // both head and tail point to the dummy node
 		tail: unsafe.Pointer(dummy),
 		len:  0,
-		pool: sync.Pool{
-			New: func() any {
-				return &item{}
-			},
-		},
 	}
 }
 
 // Enqueue adds a value to the tail of the queue.
 func (q *Queue) Enqueue(v any) {
-	// Get a node from the pool
+	// Get a fresh node
 	newNode := q.getItem()
 	newNode.v = v
 	newNodePtr := unsafe.Pointer(newNode)
@@ -108,7 +101,7 @@ func (q *Queue) Dequeue() any {
 			// Get the value before potentially releasing the node
 			value := nextNode.v
 
-			// Release the old head node back to the pool
+			// Drop the payload of the old head node
 			q.releaseItem(head)
 
 			// Decrement length atomically
@@ -129,15 +122,20 @@ func (q *Queue) IsEmpty() bool {
 	return atomic.LoadInt64(&q.len) == 0
 }
 
-// getItem retrieves a node from the pool or creates a new one
+// getItem allocates a fresh node. Nodes are deliberately not reused: the
+// queue's tail may lag behind its head (Enqueue links a node and swings the
+// tail in two steps) and a stalled Enqueue may still hold a dequeued node as
+// its tail, so a recycled node could be linked to, or link itself, outside
+// the live list and every later element would be lost. The garbage collector
+// reclaims a node once nothing refers to it.
 func (q *Queue) getItem() *item {
-	return q.pool.Get().(*item)
+	return &item{}
 }
 
-// releaseItem returns a node to the pool for reuse
+// releaseItem drops the payload of a node that left the list. The next
+// pointer is kept: an Enqueue that still sees this node as the tail must
+// observe that it has a successor and help the tail forward instead of
+// linking behind a node that is no longer reachable from the head.
 func (q *Queue) releaseItem(i *item) {
-	// Reset i to prevent memory leaks
 	i.v = nil
-	i.next = nil
-	q.pool.Put(i)
 }
